@@ -55,7 +55,7 @@ def bad_lines(opts, r, tier):
     out += [("-", "unknown-option", "no_such_option = 1"), ("-", "unknown-option", "indent_colums = 4"),
             ("-", "unterminated", 'cmt_sp_after_star_cont = "3'), ("-", "unterminated", "sp_arith = force\\"),
             ("-", "unexpected-text", 'sp_arith = "force"x'), ("-", "few-args", "sp_arith"), ("-", "few-args", "set BOOL"),
-            ("-", "unknown-type", "set NOTATOKEN x"), ("-", "unknown-lang", "file_ext KLINGON .kl"), ("-", "bad-version", "using x"),
+            ("-", "unknown-type", "set NOTATOKEN x"), ("-", "unknown-lang", "file_ext KLINGON .kl"), ("-", "bad-version", "using x"), ("-", "bad-version", "using a.b"), ("-", "bad-version", "using 1.x"), ("-", "bad-version", "using 1.2.z"), ("-", "bad-version", "using 99999999999.1"),
             ("-", "unknown-option", "x" * 300 + " = 1")]
     return out
 
@@ -177,7 +177,7 @@ def run(rep, build, tier, seed):
                 rep.finding("nlmax|%r" % text, "nl_max guard: config %r %s (exit %s)" % (text, "not refused" if want else "refused", f[0]), {"kind": "config", "cfg_b64": common.b64(text)})
         # random garbage config text: no crash / hang
         n_g = 60 if tier == "quick" else 1500
-        frag = [b"sp_arith", b"=", b" ", b"\"", b"'", b"`", b"\\", b"#", b",", b"force", b"\n", b"set", b"type", b"file_ext", b"include", b"using", b"0.7", b"-", b"~", b"99999999999", b"\t", b"indent_columns", b"\r"]
+        frag = [b"sp_arith", b"=", b" ", b"\"", b"'", b"`", b"\\", b"#", b",", b"force", b"\n", b"set", b"type", b"file_ext", b"include", b"using", b"0.7", b".", b"a.b", b"-", b"~", b"99999999999", b"\t", b"indent_columns", b"\r"]
         for k in range(n_g):
             text = b"".join(r.choice(frag) for _ in range(r.randint(1, 30)))
             if b"include" in text:
